@@ -8,7 +8,12 @@ import (
 
 // the offline UUID is the version-3 name-based UUID of "OfflinePlayer:"+name.
 func VP_C18_uuid() {
-	name := string(vp.Bytes(vp.Choice(5)))
+	// short names of every length, then lengths around Minecraft's 16-character
+	// limit and beyond (non-ASCII names exceed 16 bytes); md5 is an opaque
+	// function of the hashed byte sequence, so length costs nothing
+	n := []int{0, 1, 2, 3, 4, 15, 16, 17, 18, 24, 33, 49}[vp.Choice(12)]
+	vp.SizeBound(64)
+	name := string(vp.Bytes(n))
 	got := NameToUUID(name)
 	d := md5.Sum([]byte("OfflinePlayer:" + name))
 	d[6] = d[6]&0x0f | 0x30
